@@ -4,8 +4,8 @@
 # dataset whenever the bits above HighBit are not already the sign extension / zero.
 import sys, warnings, io
 warnings.filterwarnings('ignore')
-sys.path.insert(0, sys.argv[1] + '/src'); sys.path.insert(0, '/verif/harness')
-import stub_modules as stubmods; stubmods.install()
+sys.path.insert(0, sys.argv[1] + '/src'); sys.path.insert(0, '/root/scratch/probe')
+import stubmods; stubmods.install()
 import numpy as np, pydicom, highdicom as hd
 from pydicom.uid import ExplicitVRLittleEndian
 
